@@ -36,14 +36,14 @@ fn bits_of<T: Bits>(v: &[T]) -> Vec<u64> {
 }
 
 #[derive(Debug, Clone, Serialize, Deserialize)]
-struct Case {
-    ty: usize,
+pub struct Case {
+    pub ty: usize,
     /// component buffer contents (raw bits, truncated to the component width)
-    bits: Vec<u64>,
+    pub bits: Vec<u64>,
     /// extra capacity requested beyond the length
-    extra_cap: usize,
-    write_at: usize,
-    write_val: u64,
+    pub extra_cap: usize,
+    pub write_at: usize,
+    pub write_val: u64,
 }
 
 fn make_vec<T: Bits>(c: &Case) -> Vec<T> {
@@ -299,13 +299,13 @@ where
     Ok(())
 }
 
-type CheckFn = fn(&Case, &mut Obs) -> PropResult;
-struct Entry {
-    name: &'static str,
-    n: usize,
+pub type CheckFn = fn(&Case, &mut Obs) -> PropResult;
+pub struct Entry {
+    pub name: &'static str,
+    pub n: usize,
     /// component width in bits
-    width: u32,
-    f: CheckFn,
+    pub width: u32,
+    pub f: CheckFn,
 }
 
 macro_rules! ent {
@@ -322,7 +322,7 @@ macro_rules! uent {
     }};
 }
 
-fn entries() -> Vec<Entry> {
+pub fn entries() -> Vec<Entry> {
     type S = encoding::Srgb;
     vec![
         ent!("Rgb", Srgb<u8>, u8, 3, |c| [c.red, c.green, c.blue]),
